@@ -16,6 +16,7 @@ import (
 	"fmt"
 	"os"
 	"regexp"
+	"runtime"
 	"sort"
 	"strconv"
 	"strings"
@@ -58,6 +59,7 @@ type vC01Run struct {
 	obs     string
 	choices []rt.Choice
 	prefixN int
+	spawned int // goroutines that exist after applying the entry and did not before
 }
 
 // vRunArmed replays hist on a fresh instance and applies e, all under the armed
@@ -73,10 +75,15 @@ func vRunArmed(hist []VEntry, e VEntry, script map[int]uint64, clockShift int64)
 	rt.Disarm()
 	n := len(rec.Choices)
 	rec.Arm()
+	// (one processor: a goroutine that the entry starts cannot run, let alone finish, before we count)
+	prevProcs := runtime.GOMAXPROCS(1)
+	g0 := runtime.NumGoroutine()
 	st := in.Apply(e)
+	spawned := runtime.NumGoroutine() - g0
+	runtime.GOMAXPROCS(prevProcs)
 	rt.Disarm()
 	rt.SetClockOffset(0)
-	return vC01Run{obs: vObserve(&st, in.Srv), choices: rec.Choices, prefixN: n}
+	return vC01Run{obs: vObserve(&st, in.Srv), choices: rec.Choices, prefixN: n, spawned: spawned}
 }
 
 var vThrRe = regexp.MustCompile(` thr=\d+`)
@@ -224,6 +231,15 @@ func TestVerifC01(t *testing.T) {
 			res.Counters["baseline_rerun"]++
 		}
 		res.Executions++
+		if base.spawned > 0 {
+			// work that continues on another goroutine after Apply returned changes the state at a moment the
+			// log does not determine (confirmed on a second execution: lazily started library goroutines
+			// appear once)
+			if again := vRunArmed(hist, e, nil, 0); again.spawned > 0 {
+				report(sc, hist, e, "applying an entry leaves a goroutine running (the result depends on goroutine timing) ["+vEntryCmd(&e)+"]",
+					fmt.Sprintf("entry %s: %d goroutine(s) exist after the entry was applied that did not exist before", e.String(), again.spawned))
+			}
+		}
 		h := sha1.Sum([]byte(base.obs))
 		res.Digests[fmt.Sprintf("%s|%d|%s", sc, len(hist), vKey(e.String()))] = hex.EncodeToString(h[:8])
 		k := len(base.choices) - base.prefixN
